@@ -1,9 +1,9 @@
 (** C18 — a reorganised-away incoming payment is found reverted, never spendable.
-    Statements only (proofs: theories/LedgerProofs.v, theories/SelectProofs.v). What the node
+    Statements only (proofs: theories/LedgerProofs.v, theories/SelectProofs.v, theories/ExpireProofs.v). What the node
     reports after the reorganisation (which outputs are in its UTXO set, which kernels it no
     longer has) is an input of the model; the guard "tip not below the last confirmed height"
     is the code's own (a shorter fork is ignored), hence "longer fork". *)
-From GW Require Import Ledger LedgerProofs Select SelectProofs.
+From GW Require Import Ledger LedgerProofs Select SelectProofs HeldProofs ExpireProofs LedgerX LedgerXProofs.
 
 (** Which log entries the reverted-kernel rule catches: exactly the received entries with a
     stored kernel that the node no longer has, one of whose outputs — recorded Unspent, i.e.
@@ -67,6 +67,29 @@ Theorem C18_reconfirmed : forall w parent all tip p km q id h,
   /\ settled_at (w_log w') parent id.
 Proof. exact refresh_reconfirms. Qed.
 Print Assumptions C18_reconfirmed.
+
+(** A payment reported reverted stays reported so until it is mined again: in every state
+    reachable by standard-flow operations the expiry step of the wallet's periodic update leaves
+    a TxReverted entry exactly as it is, whatever cutoff its slate carried (before the [fix:] the
+    step cancelled it and deleted its output: when the payment was mined again the funds came
+    back under a second entry) ... *)
+Theorem C18_expiry_leaves_reverted_payment : forall ops tip t,
+  forallb std_op ops = true ->
+  let w := run empty_wallet ops in
+  In t (w_log w) -> t_type t = TReverted ->
+  get_tx (w_log (expire w tip)) (t_parent t) (t_id t) = Some t.
+Proof. exact expire_keeps_reverted. Qed.
+Print Assumptions C18_expiry_leaves_reverted_payment.
+
+(** ... and the kernel step never marks it confirmed: a reverted payment comes back only
+    through its output ([C18_reconfirmed]), so it can never end up "reverted and confirmed"
+    with its output stuck Reverted (a block arriving between the output query and the kernel
+    query of one refresh did that before the [fix:]). *)
+Theorem C18_kernel_step_leaves_reverted_payment : forall w parent missing t,
+  In t (w_log w) -> t_type t = TReverted ->
+  In t (w_log (kernel_confirm w parent missing)).
+Proof. exact kernel_confirm_keeps_reverted. Qed.
+Print Assumptions C18_kernel_step_leaves_reverted_payment.
 
 (** non-vacuity: receive, confirm, reorganise away (output and kernel gone), look again
     (reverted, not counted), mined again (confirmed, spendable), flip-flop once more. *)
